@@ -15,6 +15,8 @@ def run(tier, only=None):
     if tier == "quick":
         # per-change tier: 'and'/'cmp' memory destinations go through the same rows and code as 'add' (kept in full)
         sks = [s for s in sks if not (s.name.split(".")[1] in ("and", "cmp") and ".m_" in s.name and not s.name.endswith(".neghex"))]
+        # decimal spellings of the memory-destination forms are the subject of C16's number-base pairs
+        sks = [s for s in sks if not (s.name.endswith(".dec") and ".m_" in s.name and s.name.split(".")[1] in ("test", "mov", "add"))]
     if only:
         sks = [s for s in sks if fnmatch.fnmatch(s.name, only)]
     rep.add(eng.run_family(sks))
